@@ -143,7 +143,12 @@ for await (const line of rl) {
       "export default { buildParsers };",
     ].join("\n");
     const file = path.join(genDir, createHash("sha256").update(text).digest("hex").slice(0, 24) + ".mjs");
-    if (!fs.existsSync(file)) fs.writeFileSync(file, text);
+    if (!fs.existsSync(file)) {
+      // several worker processes may be given the same text: write under a private name, then rename (atomic), so that nobody imports a half-written file
+      const tmp = file + "." + process.pid + ".tmp";
+      fs.writeFileSync(tmp, text);
+      fs.renameSync(tmp, file);
+    }
     const mod = (await import(pathToFileURL(file).href)).default;
     const sf = {}, nf = {};
     for (const k of job.sformats ?? []) sf[k] = FORMATS.string[k] ?? (() => true);
